@@ -799,3 +799,17 @@ Lemma load_old_refuted_lemma :
     is_raise (load_old o) = true /\
     snd (core_load_old FRegular true o) = true.
 Proof. exists DEOFError. vm_compute. auto. Qed.
+
+Lemma replace_failure_clean_lemma s0 f tmp target pieces cuts j aftermath :
+  wf s0 -> names s0 tmp = None -> fds s0 f = None -> tmp <> target ->
+  forallb quiet_b aftermath = true ->
+  let ops := compile no_bufs (replace_uops f tmp target pieces cuts) in
+  let s' := fault_run ops j tmp aftermath s0 in
+  (read s' target = read s0 target \/ read s' target = Some (concat (map fst pieces)))
+  /\ names s' tmp = None
+  /\ (forall p, p <> target -> p <> tmp -> names s' p = names s0 p)
+  /\ (forall i, i < next s0 -> data s' i = data s0 i).
+Proof.
+  intros W T F N Ha ops s'. unfold s', ops, replace_uops. rewrite <- (dump_body_payload f).
+  apply handled_failure_clean_lemma; try assumption; [apply dump_body_ok|reflexivity|reflexivity].
+Qed.
